@@ -527,7 +527,9 @@ ApplyBuiltin(s, f, args) ==
          ELSE IF Len(args) > 3 THEN Unspec(s)
          ELSE LET pass == IF Len(args) = 1 THEN args[1].v.b ELSE SameVal(args[1], args[2], s.heap)
                   s1 == [s EXCEPT !.tt = s.tt + 1, !.tf = s.tf + (IF pass THEN 0 ELSE 1)]
-              IN IF ~pass /\ TheCase.failFast THEN End(s1, "testfail") ELSE RetPop(s1, VNone)
+                  \* the text of a failed test contains its message (third argument) literally
+                  s2 == IF ~pass /\ Len(args) = 3 THEN [s1 EXCEPT !.msgs = Append(s1.msgs, [cp |-> args[3].v.cp])] ELSE s1
+              IN IF ~pass /\ TheCase.failFast THEN End(s2, "testfail") ELSE RetPop(s2, VNone)
     \* graphics and other built-ins without a rule here are opaque: outcome not specified by this module
     [] f \in Builtins -> Unspec(s)
     [] OTHER -> Stuck(s)
@@ -584,6 +586,7 @@ Enter(s, x) ==
     [] x.k = "ret"  -> IF Len(x.xs) = 0 THEN [s EXCEPT !.ctl = [m |-> "ret", v |-> VNone]]
                        ELSE EvalPush(s, x.xs[1], [f |-> "retK"])
     [] x.k = "brk"  -> [s EXCEPT !.ctl = [m |-> "brk"]]
+    [] x.k = "raw"  -> Ret(s, VNone)                   \* a comment or blank line: the empty statement
     [] x.k = "if"   -> EvalPush(PushScope(s), x.cs[1], [f |-> "ifC", x |-> x, j |-> 1])
     [] x.k = "while" -> EvalPush(PushScope(s), x.c, [f |-> "whC", x |-> x])
     [] x.k = "for"  -> EvalPush(PushScope(s), x.xs[1], [f |-> "forL", x |-> x, vs |-> <<>>])
@@ -705,7 +708,7 @@ InitState == [status |-> "run", ph |-> "main",
               k |-> <<>>, env |-> << [n \in {"err", "errmsg"} |-> IF n = "err" THEN VBool(FALSE) ELSE VStr(<<>>)] >>,
               tenv |-> << [n \in {"err", "errmsg"} |-> IF n = "err" THEN T_bool ELSE T_str] >>,
               heap |-> <<>>, out |-> <<>>, stop |-> FALSE, inq |-> <<>>, evi |-> 0, evb |-> <<>>,
-              tt |-> 0, tf |-> 0, xc |-> 0, rn |-> 0, ns |-> 0, yl |-> FALSE, oas |-> 0, dz |-> FALSE]
+              tt |-> 0, tf |-> 0, xc |-> 0, rn |-> 0, ns |-> 0, yl |-> FALSE, oas |-> 0, dz |-> FALSE, msgs |-> <<>>]
 
 \* families define  FamInit == InitWith(<their case set>)
 InitWith(CaseSet) == /\ cs \in CaseSet
@@ -803,7 +806,8 @@ CaseJson(s) ==
    \* soundOnly: the documentation leaves the rest of this behaviour open; only "never goes wrong"
    \* (and the effects so far being a prefix) can be demanded of the implementation
    soundOnly |-> s.status = "unspec",
-   expect |-> [effects |-> SubSeq(s.out, 1, MainEnd(s)),
+   expect |-> [errContains |-> s.msgs,
+               effects |-> SubSeq(s.out, 1, MainEnd(s)),
                result |-> IF s.evi > 0 THEN <<"ok">> ELSE ResultOf(s),
                events |-> EventExpect(s)]]
 
